@@ -671,6 +671,32 @@ def adjust(pid, rng, cfg):
     return cfg
 
 
+def linked_rounds_case(rng):
+    """a linked adapter whose two parts are both found in one round, followed by a further match of another adapter
+    in a later round of the same read (--times >= 2): rows of later rounds must refer to what the earlier round left"""
+    fr, bk, other = (U.rand_seq(rng, rng.choice([5, 6, 8]), "ACGT") for _ in range(3))
+    anchored = rng.random() < 0.5
+    cfg = S.Cfg(adapters=(("-g", "lk=%s%s...%s" % ("^" if anchored else "", fr, bk)), (rng.choice(["-a", "-b", "-g"]), "ad1=" + other)),
+                times=rng.choice([2, 3]), info_file=True, action=rng.choice(["trim", "trim", "mask", "lowercase", "none"]),
+                error_rate=rng.choice([None, 0.0, 0.2]), overlap=rng.choice([None, 3, 4]), fasta=rng.random() < 0.3)
+    reads = []
+    for i in range(rng.choice([3, 5])):
+        ins1, ins2, tail = (U.rand_seq(rng, rng.choice([0, 3, 7, 12]), "ACGT") for _ in range(3))
+        lead = "" if anchored or rng.random() < 0.5 else U.rand_seq(rng, 3, "ACGT")
+        shape = rng.random()
+        if shape < 0.5:
+            seq = lead + fr + ins1 + other + ins2 + bk + tail
+        elif shape < 0.75:
+            seq = lead + fr + other + ins1 + bk + tail
+        else:
+            seq = lead + fr + ins1 + bk + tail
+        if rng.random() < 0.3 and len(seq) > 4:
+            seq = U.mutate(rng, seq, 1, "ACGT")
+        qual = None if cfg.fasta else "".join(chr(33 + rng.randint(2, 40)) for _ in seq)
+        reads.append(("r%d" % i, seq, qual))
+    return cfg, reads
+
+
 def run(ctx, pid):
     ctx.coq()
     ctx.model()
@@ -684,6 +710,9 @@ def run(ctx, pid):
             cases.append((S.Cfg.from_json(e["cfg"]), [tuple(r) for r in e["reads"]]))
     ctx.notes["corpus_cases"] = len(cases)
     for _ in range(n):
+        if pid in ("C17", "C20", "C03", "C09") and rng.random() < 0.08:
+            cases.append(linked_rounds_case(rng))
+            continue
         cfg, reads = S.rand_case(rng, FOCUS[pid])
         cases.append((adjust(pid, rng, cfg), reads))
     results = S.correspond(ctx, cases, "pipeline(model) vs cutadapt.cli.main", rng_argv=(rng if pid == "C10" else None))
